@@ -1,5 +1,65 @@
+/-
+C19 — proved counter-examples (kernel-evaluated) and their protocol lines.
+Imports only Model/Spec/Driver so that `drv_C19` links independently of the proofs.
+-/
+import CaddyModel.C19.Spec
 import CaddyModel.C19.Driver
 
 namespace CaddyModel.C19
-def witnessLines : List String := []
+
+/-! ### a populated SNI index is not first-match -/
+
+def wA : Bytes := [97, 46, 116, 101, 115, 116]        -- "a.test"
+def wZ : Bytes := [122, 122, 46, 116, 101, 115, 116]  -- "zz.test"
+
+/-- 31 policies: policy 0 has no matchers (catch-all), policy 5 is `sni a.test`, every other one `sni zz.test` -/
+def trapPolicies : List Policy :=
+  (List.range 31).map fun i =>
+    if i = 0 then ⟨[], false, false⟩
+    else if i = 5 then ⟨[.sni [wA]], false, false⟩
+    else ⟨[.sni [wZ]], false, false⟩
+
+def trapHello : Hello := ⟨wA, fun _ => false⟩
+
+/-- First match is the catch-all policy 0; a populated index answers policy 5. -/
+theorem live_index_breaks_first_match : ∃ ps h, choose true ps h ≠ firstMatch ps h :=
+  ⟨trapPolicies, trapHello, by decide⟩
+
+example : firstMatch trapPolicies trapHello = .config 0 := by decide
+example : choose true trapPolicies trapHello = .config 5 := by decide
+example : choose false trapPolicies trapHello = .config 0 := by decide
+example : indexHarmless trapPolicies trapHello = false := by decide
+
+/-! ### strict SNI-Host does not bind the routing host when the Host is bracketed without a port -/
+
+def wSecret : Bytes := [115, 101, 99, 114, 101, 116, 46, 116, 101, 115, 116]   -- "secret.test"
+def wBracketed : Bytes := 91 :: wSecret ++ [93]                                -- "[secret.test]"
+
+/-- negation of the full statement kept in `Props.strict_binds_routing_host_partial`:
+    SNI `[secret.test]`, Host `[secret.test]`, strict checking on — the request is routed to the
+    handler of site `secret.test`, which is not the SNI. -/
+theorem strict_binds_routing_host_full_fails :
+    ¬ ∀ (sites : List Bytes) (sni host : Bytes) (k : Nat),
+        serve true sites (some sni) host = .handler (some k) →
+        ∃ site, sites[k]? = some site ∧ namesSameHost sni site := by
+  intro hall
+  obtain ⟨site, h1, h2⟩ := hall [wSecret] wBracketed wBracketed 0 (by decide)
+  simp at h1; subst h1
+  revert h2; decide
+
+example : bracketTrimmed wBracketed = true := by decide
+example : serve true [wSecret] (some wBracketed) wBracketed = .handler (some 0) := by decide
+-- with a port the two computations agree and the request is refused
+example : serve true [wSecret] (some wBracketed) (wBracketed ++ [58, 52, 52, 51]) = .misdirected := by decide
+
+/-- Protocol lines of the two counter-examples; replayed on the implementation first on every run.
+    Line 1 is `trapPolicies`/`trapHello` (written with the liveness flag 0 that the pinned tree
+    shows: there first-match holds, the answer is `c0`; on a tree whose index is populated the
+    harness observes live=1, answers `c5`, and the first-match oracle fails on exactly this input).
+    Line 2 is the bracketed-Host request (known finding). -/
+def witnessLines : List String := [
+  "C19 pol 0 -/~/~;-/7a7a2e74657374/~;-/7a7a2e74657374/~;-/7a7a2e74657374/~;-/7a7a2e74657374/~;-/612e74657374/~;-/7a7a2e74657374/~;-/7a7a2e74657374/~;-/7a7a2e74657374/~;-/7a7a2e74657374/~;-/7a7a2e74657374/~;-/7a7a2e74657374/~;-/7a7a2e74657374/~;-/7a7a2e74657374/~;-/7a7a2e74657374/~;-/7a7a2e74657374/~;-/7a7a2e74657374/~;-/7a7a2e74657374/~;-/7a7a2e74657374/~;-/7a7a2e74657374/~;-/7a7a2e74657374/~;-/7a7a2e74657374/~;-/7a7a2e74657374/~;-/7a7a2e74657374/~;-/7a7a2e74657374/~;-/7a7a2e74657374/~;-/7a7a2e74657374/~;-/7a7a2e74657374/~;-/7a7a2e74657374/~;-/7a7a2e74657374/~;-/7a7a2e74657374/~ 612e74657374/0/6/1000011010111110",
+  "C19 enf t . 7365637265742e74657374 1/5b7365637265742e746573745d/5b7365637265742e746573745d"
+]
+
 end CaddyModel.C19
